@@ -120,6 +120,7 @@ static bool check_buffered(const FlowT& f, const RefDir& ref, std::string& why, 
 
 // ============================================================================ mode flow (C06)
 struct FlowSut {
+    size_t ooo_calls = 0; uint32_t ooo_seq = 0; std::vector<uint8_t> ooo_payload;      // out-of-order callback: how often, and with what
     Tins::TCPIP::Flow* flow; Bytes delivered; bool cleanup; size_t callbacks; size_t last_cb_total; bool repeated;
     FlowSut() : flow(0), cleanup(false), callbacks(0), last_cb_total(0), repeated(false) {}
     ~FlowSut() { delete flow; }
@@ -289,6 +290,7 @@ struct TcpEngine : Engine {
             if (c.addr[0].is6()) fs[d].flow = new Tins::TCPIP::Flow(Tins::IPv6Address(c.addr[1 - d].b), c.port[1 - d], start);
             else fs[d].flow = new Tins::TCPIP::Flow(Tins::IPv4Address(Tins::Endian::be_to_host(get32(c.addr[1 - d].b)) ), c.port[1 - d], start);
             fs[d].cleanup = cleanup; FlowSut* self = &fs[d];
+            fs[d].flow->out_of_order_callback([self](Tins::TCPIP::Flow&, uint32_t seq, const Tins::TCPIP::Flow::payload_type& pl) { ++self->ooo_calls; self->ooo_seq = seq; self->ooo_payload = pl; });
             fs[d].flow->data_callback([self](Tins::TCPIP::Flow& f) {
                 ++self->callbacks;
                 if (self->cleanup) { self->delivered.insert(self->delivered.end(), f.payload().begin(), f.payload().end()); f.payload().clear(); }
@@ -334,7 +336,13 @@ struct TcpEngine : Engine {
             {
                 std::unique_ptr<Tins::PDU> pdu(parse(frame));
                 FlowSut& f = fs[dir]; size_t cb0 = f.callbacks; size_t before = cleanup ? f.delivered.size() : f.flow->payload().size();
+                // the out-of-order callback fires exactly for a data segment that lies wholly before the delivery point or starts beyond it, with that segment
+                const size_t ooo0 = f.ooo_calls; const int64_t off0 = (int64_t)seq_diff(d.tcp.seq, ref[dir].base + (uint32_t)k_before); const size_t plen = d.tcp.payload.size();
+                const bool expect_ooo = !(d.tcp.flags & TH_SYN) && plen > 0 && (off0 > 0 || off0 + (int64_t)plen < 0);
                 f.flow->process_packet(*pdu);
+                st.inc("chk.out_of_order_callback"); if (expect_ooo) st.inc("probe.out_of_order_callback_expected");
+                if (f.ooo_calls - ooo0 != (expect_ooo ? 1u : 0u)) return Verdict::bad("flow:out-of-order-callback", fmt("dir %d: segment at offset %lld (len %zu) relative to the delivery point: out-of-order callback fired %zu times, expected %d", dir, (long long)off0, plen, f.ooo_calls - ooo0, expect_ooo ? 1 : 0), idx);
+                if (expect_ooo && (f.ooo_seq != d.tcp.seq || f.ooo_payload != d.tcp.payload)) return Verdict::bad("flow:out-of-order-callback", "out-of-order callback reported another sequence number or payload than the segment's", idx);
                 const std::vector<uint8_t>& got = cleanup ? f.delivered : f.flow->payload();
                 st.inc("chk.flow");
                 tr.add(fmt("  flow seqno=%u delivered=%zu chunks=%zu buffered=%u cb=%zu", f.flow->sequence_number(), got.size(), f.flow->buffered_payload().size(), f.flow->total_buffered_bytes(), f.callbacks));
